@@ -49,6 +49,7 @@ import (
 	"fmt"
 	"io"
 	"math/rand/v2"
+	"os"
 	"runtime"
 	"strings"
 	"sync"
@@ -85,6 +86,9 @@ var verifC21DirNames = [2]string{"pri", "sec"}
 var verifC21ErrInjected = errors.New("verif: injected I/O error")
 
 const verifC21Watchdog = 150 * time.Second
+
+// verifC21ByteBudget bounds the bytes of big records per script.
+const verifC21ByteBudget = 96 << 10
 
 type verifC21Gate struct {
 	blocked   bool
@@ -405,6 +409,7 @@ type verifC21Params struct {
 	UseSem        bool    `json:"queue_sem_chan"`
 	AsyncSwitch   bool    `json:"switch_from_monitor_goroutine"`
 	Profile       string  `json:"profile"`
+	Huge          bool    `json:"huge_records"`
 }
 
 func verifC21GenScript(rng *rand.Rand) (verifC21Params, []verifC21Step) {
@@ -412,7 +417,7 @@ func verifC21GenScript(rng *rand.Rand) (verifC21Params, []verifC21Step) {
 		WN:          uint64(1 + rng.IntN(5000)),
 		SyncOffsets: rng.IntN(2) == 0,
 		SyncProb:    []float64{1, 0.5, 0.5, 0.125, 0.03}[rng.IntN(5)],
-		BigProb:     []float64{0, 0.02, 0.02, 0.1, 0.3}[rng.IntN(5)],
+		BigProb:     []float64{0, 0.01, 0.03, 0.03, 0.1}[rng.IntN(5)],
 		LogDataProb: []float64{0, 0.05, 0.15}[rng.IntN(3)],
 		MinSyncUs:   []int{-1, 0, 0, 50, 1000}[rng.IntN(5)],
 		UseSem:      rng.IntN(3) != 0,
@@ -422,6 +427,7 @@ func verifC21GenScript(rng *rand.Rand) (verifC21Params, []verifC21Step) {
 		p.InitialDir = 1
 	}
 	p.NoSyncOnClose = rng.IntN(4) == 0
+	p.Huge = rng.IntN(16) == 0
 	// profile: how hostile the file systems are
 	p.Profile = []string{"stall", "stall", "faulty", "mixed", "mixed", "calm"}[rng.IntN(6)]
 	wBlock, wFail, wDelay := 8, 4, 4
@@ -770,8 +776,15 @@ type verifC21Run struct {
 	data     []*verifC21Rec // count > 0
 	bySeq    map[uint64]int
 	nextSeq  uint64
+	bytes    int
+	huge     int
+	tAudit, tClone, tSetup, tSteps, tFinal time.Duration
 	mon      verifC21Mon
-	waiters  sync.WaitGroup
+	obsMu    sync.Mutex
+	obsCond  *sync.Cond
+	obsQ     []*verifC21Rec
+	obsStop  bool
+	obsDone  chan struct{}
 	under    atomic.Int64
 	wrErrs   int
 
@@ -836,6 +849,9 @@ func (s *verifC21Run) setup() error {
 	s.bySeq = map[uint64]int{}
 	s.nextSeq = 10 + uint64(s.rng.IntN(1000))
 	s.mon.ackedMaxIdx = -1
+	s.obsCond = sync.NewCond(&s.obsMu)
+	s.obsDone = make(chan struct{})
+	go s.observe()
 	var minSync func() time.Duration
 	if s.p.MinSyncUs >= 0 {
 		d := time.Duration(s.p.MinSyncUs) * time.Microsecond
@@ -869,9 +885,19 @@ func (s *verifC21Run) setup() error {
 func (s *verifC21Run) write(doSync bool) {
 	logData := len(s.produced) > 0 && s.rng.Float64() < s.p.LogDataProb
 	n := 8 + s.rng.IntN(180)
-	if s.rng.Float64() < s.p.BigProb {
-		n = []int{3000, 4096 - 30, 9000, 33000, 70000}[s.rng.IntN(5)] + s.rng.IntN(600)
+	if s.rng.Float64() < s.p.BigProb && s.bytes < verifC21ByteBudget {
+		// Records that cross 4 KiB crash blocks; once or twice per "huge" script a
+		// record that spans 32 KiB log blocks. Sizes are bounded because the
+		// reader's bit-flip diagnostic costs 8*len^2 CRC bytes for every torn
+		// chunk it meets (seconds for a 32 KiB chunk), and because MemFS.Sync
+		// copies the whole file.
+		n = []int{1500, 3000, 4096 - 30, 5000, 9000}[s.rng.IntN(5)] + s.rng.IntN(600)
+		if s.p.Huge && s.huge < 2 && s.rng.IntN(3) == 0 {
+			n = []int{33000, 70000}[s.rng.IntN(2)]
+			s.huge++
+		}
 	}
+	s.bytes += n
 	rec := &verifC21Rec{idx: len(s.produced), seq: s.nextSeq, sync: doSync, under: &s.under}
 	if !logData {
 		rec.count = uint32(1 + s.rng.IntN(5))
@@ -913,27 +939,49 @@ func (s *verifC21Run) write(doSync bool) {
 		s.wrErrs++
 	}
 	if doSync {
-		s.waiters.Add(1)
-		go func() {
-			defer s.waiters.Done()
-			rec.wg.Wait()
-			e := *rec.errp
-			s.mon.mu.Lock()
-			if e == nil {
-				rec.ack.Store(1)
-				s.mon.ackedNil++
-				if rec.idx > s.mon.ackedMaxIdx {
-					s.mon.ackedMaxIdx = rec.idx
-				}
-			} else {
-				rec.ack.Store(2)
-				s.mon.ackedErr++
-			}
-			s.mon.mu.Unlock()
-			rec.Unref() // Commit returns to the client, which closes the batch
-		}()
+		s.obsMu.Lock()
+		s.obsQ = append(s.obsQ, rec)
+		s.obsCond.Signal()
+		s.obsMu.Unlock()
 	} else {
 		rec.Unref()
+	}
+}
+
+// observe is the acknowledgement observer: ONE goroutine per script that waits
+// for the sync waiters in production order. recordQueue.pop releases waiters in
+// index order, so waiting for them sequentially observes every release right
+// after it happened (never before), which is all the oracle needs. (One
+// goroutine per waiter would observe the same thing; goroutines are expensive
+// under the race detector.)
+func (s *verifC21Run) observe() {
+	defer close(s.obsDone)
+	for i := 0; ; i++ {
+		s.obsMu.Lock()
+		for i >= len(s.obsQ) && !s.obsStop {
+			s.obsCond.Wait()
+		}
+		if i >= len(s.obsQ) {
+			s.obsMu.Unlock()
+			return
+		}
+		rec := s.obsQ[i]
+		s.obsMu.Unlock()
+		rec.wg.Wait()
+		e := *rec.errp
+		s.mon.mu.Lock()
+		if e == nil {
+			rec.ack.Store(1)
+			s.mon.ackedNil++
+			if rec.idx > s.mon.ackedMaxIdx {
+				s.mon.ackedMaxIdx = rec.idx
+			}
+		} else {
+			rec.ack.Store(2)
+			s.mon.ackedErr++
+		}
+		s.mon.mu.Unlock()
+		rec.Unref() // Commit returns to the client, which closes the batch
 	}
 }
 
@@ -979,6 +1027,11 @@ func (s *verifC21Run) stepStrings() []string {
 
 // audit reads the logical WAL back from fs and applies the oracle.
 func (s *verifC21Run) audit(fs vfs.FS, kind string, pct int, mustIdx int, wantAll bool) {
+	t0 := time.Now()
+	defer func() { s.tAudit += time.Since(t0) }()
+	if os.Getenv("VERIF_C21_NOAUDIT") != "" {
+		return
+	}
 	rb, err := verifC21ReadLogical(fs, NumWAL(s.p.WN))
 	s.clones++
 	s.r.Count("audits_"+kind, 1)
@@ -1061,7 +1114,12 @@ func (s *verifC21Run) clone(pct int, kind string, wantAll bool) {
 	if pct > 0 {
 		cfg.RNG = rand.New(rand.NewPCG(s.rng.Uint64(), s.rng.Uint64()))
 	}
+	if os.Getenv("VERIF_C21_NOCLONE") != "" {
+		return
+	}
+	t0 := time.Now()
 	c := s.mem.CrashClone(cfg)
+	s.tClone += time.Since(t0)
 	s.r.Count("clones_audited", 1)
 	s.r.Count(fmt.Sprintf("clones_audited_pct%d", pct), 1)
 	s.audit(c, kind, pct, must, wantAll)
@@ -1069,7 +1127,11 @@ func (s *verifC21Run) clone(pct int, kind string, wantAll bool) {
 
 func (s *verifC21Run) run() {
 	r := s.r
-	if err := s.setup(); err != nil {
+	tStart := time.Now()
+	err := s.setup()
+	s.tSetup = time.Since(tStart)
+	tStart = time.Now()
+	if err != nil {
 		r.Inconclusive("case %d: setup failed: %v", s.caseID, err)
 		return
 	}
@@ -1168,6 +1230,9 @@ func (s *verifC21Run) run() {
 			}
 		}
 	}
+	s.tSteps = time.Since(tStart)
+	tStart = time.Now()
+	defer func() { s.tFinal = time.Since(tStart) }()
 	// Close may legitimately need another writer or an unblocked FS; wait a
 	// little for it before opening every gate, to catch the "returned while
 	// stalled" state when it exists.
@@ -1199,9 +1264,11 @@ func (s *verifC21Run) run() {
 		s.inconcl = true
 		return
 	}
-	wdone := make(chan struct{})
-	go func() { s.waiters.Wait(); close(wdone) }()
-	if !verifC21WaitCh(wdone, verifC21Watchdog) {
+	s.obsMu.Lock()
+	s.obsStop = true
+	s.obsCond.Signal()
+	s.obsMu.Unlock()
+	if !verifC21WaitCh(s.obsDone, verifC21Watchdog) {
 		r.Inconclusive("case %d: a sync waiter was not released within %s after Close returned", s.caseID, verifC21Watchdog)
 		s.inconcl = true
 		return
@@ -1234,7 +1301,12 @@ func TestVerifC21(t *testing.T) {
 	r.Cases(n, func(i int, rng *rand.Rand) {
 		p, steps := verifC21GenScript(rng)
 		s := &verifC21Run{r: r, caseID: i, p: p, steps: steps, rng: rng}
+		t0 := time.Now()
 		s.run()
+		if os.Getenv("VERIF_C21_DEBUG") != "" {
+			fmt.Printf("case %d: %.2fs records=%d bytes=%d audits=%d profile=%s setup=%.3f steps=%.3f final=%.3f (audit=%.3f clone=%.3f)\n", i, time.Since(t0).Seconds(), len(s.produced), s.bytes, s.clones, p.Profile,
+				s.tSetup.Seconds(), s.tSteps.Seconds(), s.tFinal.Seconds(), s.tAudit.Seconds(), s.tClone.Seconds())
+		}
 		r.Eval(1)
 		if s.inconcl {
 			return
